@@ -80,6 +80,122 @@ type tabEval struct {
 	steps  int
 	labels map[string]labelLoc
 	undef  types.Object // the package-level Undefined variable
+	// helper inlining: parameters of inlined helpers that carry the token
+	tokAlias map[types.Object]bool
+	inlining int
+}
+
+func (e *tabEval) isTok(o types.Object) bool {
+	return o != nil && (o == e.tok || e.tokAlias[o])
+}
+
+// helperOf: the call is a call of a function or method of the same package
+// (not the method being tabulated) whose body is available: a helper the
+// method was split into.  Returns its declaration and the receiver expression.
+func (e *tabEval) helperOf(call *ast.CallExpr) (*ast.FuncDecl, ast.Expr) {
+	var fo *types.Func
+	var recv ast.Expr
+	switch f := ast.Unparen(call.Fun).(type) {
+	case *ast.Ident:
+		fo, _ = e.info.Uses[f].(*types.Func)
+	case *ast.SelectorExpr:
+		if s := e.info.Selections[f]; s != nil && s.Kind() == types.MethodVal {
+			fo, _ = s.Obj().(*types.Func)
+			recv = f.X
+		}
+	}
+	if fo == nil || fo.Pkg() != e.pkg.Types || fo.Name() == e.method {
+		return nil, nil
+	}
+	if call.Ellipsis.IsValid() {
+		return nil, nil
+	}
+	fd := e.l.Decl(fo)
+	if fd == nil || fd.Body == nil {
+		return nil, nil
+	}
+	// a helper in the sense used here has the tabulated method's result shape
+	if fd.Type.Results == nil || e.fd.Type.Results == nil || fd.Type.Results.NumFields() != e.fd.Type.Results.NumFields() {
+		return nil, nil
+	}
+	return fd, recv
+}
+
+// inlineHelper evaluates the body of helper fd in place of `return helper(args)`:
+// parameters take the roles of the arguments (receiver / right operand / token).
+func (e *tabEval) inlineHelper(fd *ast.FuncDecl, recv ast.Expr, call *ast.CallExpr, st *tabState) bool {
+	var params []types.Object
+	for _, p := range fd.Type.Params.List {
+		if len(p.Names) == 0 {
+			return false
+		}
+		for _, n := range p.Names {
+			params = append(params, e.info.Defs[n])
+		}
+	}
+	if len(params) != len(call.Args) {
+		return false
+	}
+	st2 := st.clone()
+	bind := func(po types.Object, a ast.Expr) bool {
+		if po == nil {
+			return true
+		}
+		if o := e.objOf(a); o != nil && e.isTok(o) {
+			if e.tokAlias == nil {
+				e.tokAlias = map[types.Object]bool{}
+			}
+			e.tokAlias[po] = true
+			return true
+		}
+		if o := e.objOf(a); o != nil {
+			switch {
+			case o == e.recv:
+				st2.role[po] = "L"
+				return true
+			case o == e.right:
+				st2.role[po] = "R"
+				return true
+			case st.role[o] != "":
+				st2.role[po] = st.role[o]
+				return true
+			}
+		}
+		switch e.derivedRole(a, st) {
+		case "L~":
+			st2.role[po] = "L~"
+		case "R~":
+			st2.role[po] = "R~"
+		case "K~":
+		default:
+			return false
+		}
+		return true
+	}
+	if recv != nil && fd.Recv != nil && len(fd.Recv.List) > 0 && len(fd.Recv.List[0].Names) > 0 {
+		if !bind(e.info.Defs[fd.Recv.List[0].Names[0]], recv) {
+			return false
+		}
+	}
+	for i, a := range call.Args {
+		if !bind(params[i], a) {
+			return false
+		}
+	}
+	savedFd, savedLabels := e.fd, e.labels
+	e.fd, e.labels = fd, map[string]labelLoc{}
+	for i, s := range fd.Body.List {
+		if ls, ok := s.(*ast.LabeledStmt); ok {
+			e.labels[ls.Label.Name] = labelLoc{list: fd.Body.List, idx: i}
+		}
+	}
+	e.inlining++
+	e.evalSeq(fd.Body.List, st2, func(s3 *tabState) {
+		e.und(fd.Body.Rbrace, s3, "control reaches the end of the helper")
+	})
+	e.inlining--
+	e.fd, e.labels = savedFd, savedLabels
+	return true
 }
 
 type labelLoc struct {
@@ -159,11 +275,11 @@ func (e *tabEval) evalCond(c ast.Expr, st *tabState) int {
 		case token.EQL, token.NEQ:
 			res := -1
 			if st.tok != nil {
-				if o := e.objOf(v.X); o != nil && o == e.tok {
+				if o := e.objOf(v.X); o != nil && e.isTok(o) {
 					if k, ok := e.constInt(v.Y); ok {
 						res = b2i(k == *st.tok)
 					}
-				} else if o := e.objOf(v.Y); o != nil && o == e.tok {
+				} else if o := e.objOf(v.Y); o != nil && e.isTok(o) {
 					if k, ok := e.constInt(v.X); ok {
 						res = b2i(k == *st.tok)
 					}
@@ -295,7 +411,7 @@ func (e *tabEval) evalStmt(s ast.Stmt, st *tabState, cont func(*tabState)) {
 			return
 		}
 		if v.Tag != nil {
-			if o := e.objOf(v.Tag); o != nil && o == e.tok && st.tok != nil {
+			if o := e.objOf(v.Tag); o != nil && e.isTok(o) && st.tok != nil {
 				var def *ast.CaseClause
 				for _, cc := range v.Body.List {
 					cl := cc.(*ast.CaseClause)
@@ -455,7 +571,7 @@ func (e *tabEval) applySimple(s ast.Stmt, st *tabState) bool {
 			continue
 		}
 		if o := e.objOf(l); o != nil {
-			if o == e.recv || o == e.tok {
+			if o == e.recv || e.isTok(o) {
 				return false
 			}
 			// classify the local by what its initialiser mentions
@@ -502,6 +618,14 @@ func (e *tabEval) retCell(r *ast.ReturnStmt, st *tabState) {
 	}
 	c.Results = r.Results
 	first := ast.Unparen(r.Results[0])
+	// `return helper(...)`: a helper the method was split into is evaluated in place
+	if call, ok := first.(*ast.CallExpr); ok && len(r.Results) == 1 && e.inlining < 3 {
+		if hfd, hrecv := e.helperOf(call); hfd != nil {
+			if e.inlineHelper(hfd, hrecv, call, st) {
+				return
+			}
+		}
+	}
 	if call, ok := first.(*ast.CallExpr); ok {
 		if sel, ok := call.Fun.(*ast.SelectorExpr); ok && sel.Sel.Name == e.method {
 			if s := e.info.Selections[sel]; s != nil && s.Kind() == types.MethodVal && len(call.Args) >= 1 {
